@@ -1,5 +1,5 @@
 (* Proofs about Model/Convert.v against the coercion specification Gql/Coerce.v. *)
-From Coq Require Import List String Ascii ZArith Bool Lia.
+From Coq Require Import List String Ascii ZArith Bool Lia Permutation.
 From AC Require Import Base.Strs Base.Sexp Base.Json Model.Names Proofs.NamesP Gql.Coerce Model.Args
      Proofs.ArgsP Model.Convert.
 Import ListNotations.
@@ -350,38 +350,97 @@ Section Delivery.
       apply andb_true_iff in Hty' as [_ Hty']. simpl. apply IH; [exact Hty' | intros _; exact Hv].
   Qed.
 
-  (* ---------- a top-level argument: serialize wrapping + value-directed _convert_value ---------- *)
-  Definition wrap_arg (t : gtype) (v : pyval) : pyval :=
-    match var_ser S t with Some f => ser f v | None => v end.
+  (* ---------- a top-level argument: serialize expression + value-directed _convert_value ---------- *)
+  Definition wrap_arg (t : gtype) (v : pyval) : option pyval :=
+    match var_ser S t with Some f => option_map fst (ser_arg ser f t true true v) | None => Some v end.
 
-  Lemma to_json_custom_free_of_ser : forall j, to_json (PCustom j) = Some j.
-  Proof. reflexivity. Qed.
+  Lemma list_delivery2 {X W L J C} (F : X -> option (W * L)) (CV : nat -> W -> option J)
+        (Co : J -> option C) (I : X -> option C) n l :
+    (forall x, In x l -> exists w lg j c, F x = Some (w, lg) /\ (forall m, n <= m -> CV m w = Some j) /\
+                                         Co j = Some c /\ I x = Some c) ->
+    exists rs js cs, map_opt F l = Some rs /\ (forall m, n <= m -> map_opt (CV m) (map fst rs) = Some js) /\
+                     map_opt Co js = Some cs /\ map_opt I l = Some cs.
+  Proof.
+    induction l as [|x l IH]; intro H.
+    - exists [], [], []. repeat split; reflexivity.
+    - destruct (H x (or_introl eq_refl)) as [w [lg [j [c [Hf [Hd [Hc Hi]]]]]]].
+      destruct IH as [rs [js [cs [Hfs [Hds [Hcs His]]]]]]; [intros y Hy; apply H; right; exact Hy|].
+      exists ((w, lg) :: rs), (j :: js), (c :: cs). repeat split.
+      + simpl. rewrite Hf, Hfs. reflexivity.
+      + intros m Hm. simpl. rewrite (Hd m Hm), (Hds m Hm). reflexivity.
+      + simpl. rewrite Hc, Hcs. reflexivity.
+      + simpl. rewrite Hi, His. reflexivity.
+  Qed.
 
-  Lemma arg_delivery : forall n t v,
-    typed n S snake t v = true -> g_f10 S t = true ->
-    exists j c, (forall m, n <= m -> convert_value ser m S snake (wrap_arg t v) = Some j) /\
+  (* a scalar with serialize, under any wrapper nesting: serialize hits every non-None occurrence and the
+     result coerces to the caller's value *)
+  Lemma ser_delivery f : forall n t nl top v,
+    typed n S snake t v = true -> var_ser S t = Some f -> (nl = false -> v <> PNone) ->
+    exists w lg j c, ser_arg ser f t nl top v = Some (w, lg) /\
+                (forall m, n <= m -> convert_value ser m S snake w = Some j) /\
                 coerce n S t j = Some c /\ intend ser n S snake t v = Some c /\
                 (v <> PNone -> j <> JNull).
   Proof.
-    intros n t v Hty Hg. unfold wrap_arg. unfold g_f10 in Hg.
-    destruct (var_ser S t) as [f|] eqn:Ev.
-    - (* serialize configured: the guard leaves T! only *)
-      destruct t as [nm|t'|t']; try discriminate. destruct t' as [nm| |]; try discriminate.
-      unfold var_ser in Ev. simpl in Ev.
+    induction n as [|n IH]; intros t nl top v Hty Ev Hnl; [discriminate|].
+    destruct t as [nm|t'|t'].
+    - unfold var_ser in Ev. simpl in Ev.
       destruct (lookup_type S nm) as [[bi|c|vals|fs]|] eqn:El; try discriminate.
-      destruct n as [|n]; [discriminate|]. destruct n as [|n]; [destruct v; discriminate|].
-      assert (Hv : exists j0, v = PCustom j0 /\ not_jnull j0 = true).
-      { destruct v; simpl in Hty; try discriminate; rewrite El in Hty; try discriminate.
-        eexists; split; [reflexivity|exact Hty]. }
-      destruct Hv as [j0 [-> Hj0]].
-      destruct (Hser f j0 Hj0) as [j' [Hs Hj']].
-      exists j', (CCustom j'). repeat split.
-      + intros [|m] Hm; [lia|]. rewrite Hs. reflexivity.
-      + simpl. rewrite El. destruct j'; try reflexivity; discriminate.
-      + simpl. rewrite El. unfold dump_custom. rewrite Ev, Hs. reflexivity.
-      + intros _. apply not_jnull_neq; exact Hj'.
-    - (* no serialize at the named type: by induction on the fuel, following the type *)
-      clear Hg. revert t v Hty Ev.
+      destruct v as [| |z|fl|s|b|ty s|j0|l|cls kw]; simpl in Hty; rewrite ?El in Hty; try discriminate.
+      + assert (nl = true) by (destruct nl; [reflexivity|exfalso; apply Hnl; reflexivity]). subst nl.
+        exists PNone, [], JNull, CNull. repeat split; try reflexivity.
+        * intros [|m] Hm; [lia|]. reflexivity.
+        * intro H; exfalso; apply H; reflexivity.
+      + destruct (Hser f j0 Hty) as [j' [Hs Hj']].
+        exists (ser f (PCustom j0)), [(f, PCustom j0)], j', (CCustom j'). repeat split.
+        * simpl. destruct nl, top; reflexivity.
+        * intros [|m] Hm; [lia|]. rewrite Hs. reflexivity.
+        * simpl. rewrite El. destruct j'; try reflexivity; discriminate.
+        * simpl. rewrite El. unfold dump_custom. rewrite Ev, Hs. reflexivity.
+        * intros _. apply not_jnull_neq; exact Hj'.
+    - assert (Ev' : var_ser S t' = Some f) by (unfold var_ser in *; simpl in Ev; exact Ev).
+      destruct v as [| |z|fl|s|b|ty s|j0|l|cls kw]; try discriminate.
+      + assert (nl = true) by (destruct nl; [reflexivity|exfalso; apply Hnl; reflexivity]). subst nl.
+        exists PNone, [], JNull, CNull. repeat split; try reflexivity.
+        * intros [|m] Hm; [lia|]. reflexivity.
+        * intro H; exfalso; apply H; reflexivity.
+      + simpl in Hty. rewrite forallb_forall in Hty.
+        destruct (list_delivery2 (ser_arg ser f t' true false) (fun m => convert_value ser m S snake)
+                                 (coerce n S t') (intend ser n S snake t') n l)
+          as [rs [js [cs [Hf [Hd [Hc Hi]]]]]].
+        { intros x Hx. destruct (IH t' true false x (Hty x Hx) Ev') as [w [lg [j [c [H1 [H2 [H3 [H4 _]]]]]]]];
+            [discriminate|]. exists w, lg, j, c. repeat split; assumption. }
+        exists (PList (map fst rs)), (List.concat (map snd rs)), (JArr js), (CList cs). repeat split; try discriminate.
+        * simpl. rewrite Hf. destruct nl, top; reflexivity.
+        * intros [|m] Hm; [lia|]. simpl. rewrite (Hd m); [reflexivity|lia].
+        * simpl. rewrite Hc. reflexivity.
+        * simpl. rewrite Hi. reflexivity.
+    - assert (Ev' : var_ser S t' = Some f) by (unfold var_ser in *; simpl in Ev; exact Ev).
+      assert (Hv : v <> PNone) by (eapply typed_nonnull_not_none; exact Hty).
+      assert (Hty' : negb (is_nonnull t') && typed n S snake t' v = true).
+      { simpl in Hty. destruct v; try exact Hty. exfalso; apply Hv; reflexivity. }
+      apply andb_true_iff in Hty' as [Hnn Hty']. apply negb_true_iff in Hnn.
+      destruct (IH t' false top v Hty' Ev' (fun _ => Hv)) as [w [lg [j [c [H0 [H1 [H2 [H3 H4]]]]]]]].
+      exists w, lg, j, c. repeat split; try assumption.
+      + intros m Hm. apply H1. lia.
+      + simpl. rewrite Hnn. specialize (H4 Hv). destruct j; try exact H2. exfalso; apply H4; reflexivity.
+      + simpl. destruct v; try exact H3. exfalso; apply Hv; reflexivity.
+  Qed.
+
+  Lemma arg_delivery : forall n t v,
+    typed n S snake t v = true ->
+    exists w j c, wrap_arg t v = Some w /\
+                (forall m, n <= m -> convert_value ser m S snake w = Some j) /\
+                coerce n S t j = Some c /\ intend ser n S snake t v = Some c /\
+                (v <> PNone -> j <> JNull).
+  Proof.
+    intros n t v Hty. unfold wrap_arg.
+    destruct (var_ser S t) as [f|] eqn:Ev.
+    - destruct (ser_delivery f n t true true v Hty Ev) as [w [lg [j [c [H0 [H1 [H2 [H3 H4]]]]]]]]; [discriminate|].
+      exists w, j, c. rewrite H0. repeat split; assumption.
+    - cut (exists j c, (forall m, n <= m -> convert_value ser m S snake v = Some j) /\
+                coerce n S t j = Some c /\ intend ser n S snake t v = Some c /\ (v <> PNone -> j <> JNull)).
+      { intros [j [c H]]. exists v, j, c. split; [reflexivity|exact H]. }
+      revert t v Hty Ev.
       induction n as [|n IH]; intros t v Hty Ev; [discriminate|].
       destruct t as [nm|t'|t'].
       + destruct v as [| |z|fl|s|b|ty s|j0|l|cls kw];
@@ -548,3 +607,445 @@ Section Dict.
     rewrite (bind_missing _ _ _ Hin Hr Ha). reflexivity.
   Qed.
 End Dict.
+
+(* ---------- evaluating the generated serialize expression ---------- *)
+Section EvalGen.
+  Variable ser : string -> pyval -> pyval.
+
+  Lemma map_opt_ext {X Y} (F G : X -> option Y) l : (forall a, F a = G a) -> map_opt F l = map_opt G l.
+  Proof. intro H. induction l as [|x l IH]; simpl; [reflexivity|]. rewrite H, IH. reflexivity. Qed.
+
+  Lemma unset_not_item d : String.eqb "UNSET" (item_name d) = false.
+  Proof. reflexivity. Qed.
+
+  (* the expression computes ser_arg (value AND call log), whatever the wrapper nesting *)
+  Lemma eval_gen f : (forall d, String.eqb f (item_name d) = false) ->
+    forall t env x nl depth v,
+      assoc x env = Some v -> assoc f env = None -> assoc "UNSET" env = None ->
+      eval_se ser env (gen_se t x f nl depth) = ser_arg ser f t nl (Nat.eqb depth 0) v.
+  Proof.
+    intros Hf. induction t as [nm|t' IH|t' IH]; intros env x nl depth v Hx Hfe Hu.
+    - simpl. destruct nl; simpl.
+      + rewrite Hx. unfold is_unset_test. rewrite Hu.
+        destruct (is_none v || (Nat.eqb depth 0 && is_unset v)); [reflexivity|].
+        simpl. rewrite ?Hfe, ?Hx. reflexivity.
+      + rewrite ?Hfe, ?Hx. reflexivity.
+    - assert (Hcomp : eval_se ser env (EComp (item_name depth)
+                         (gen_se t' (item_name depth) f true (Datatypes.S depth)) x) =
+                      match v with
+                      | PList l => option_map (fun rs => (PList (map fst rs), List.concat (map snd rs)))
+                                              (map_opt (ser_arg ser f t' true false) l)
+                      | _ => None end).
+      { simpl. rewrite Hx. destruct v; try reflexivity. f_equal. apply map_opt_ext. intro a.
+        apply (IH ((item_name depth, a) :: env) (item_name depth) true (Datatypes.S depth) a).
+        - simpl. rewrite String.eqb_refl. reflexivity.
+        - simpl. rewrite Hf. exact Hfe.
+        - simpl. rewrite ?unset_not_item. exact Hu. }
+      simpl gen_se. destruct nl.
+      + simpl eval_se. rewrite Hx. unfold is_unset_test. rewrite Hu. simpl ser_arg.
+        destruct (is_none v || (Nat.eqb depth 0 && is_unset v)); [reflexivity|].
+        rewrite <- Hcomp. simpl. rewrite Hx. reflexivity.
+      + rewrite Hcomp. reflexivity.
+    - simpl. apply IH; assumption.
+  Qed.
+
+  Lemma ser_arg_unset f t : is_nonnull t = false -> ser_arg ser f t true true PUnset = Some (PUnset, []).
+  Proof. destruct t; simpl; intro H; try reflexivity; discriminate. Qed.
+End EvalGen.
+
+(* ---------- generic facts about _convert_dict_to_json_serializable ---------- *)
+Section DictLookup.
+  Variable ser : string -> pyval -> pyval.
+  Variable S : schema.
+  Variable snake : bool.
+
+  Lemma convert_dict_exists n d :
+    (forall k w, In (k, w) d -> w = PUnset \/ exists j, forall m, n <= m -> convert_value ser m S snake w = Some j) ->
+    exists kv, forall m, n <= m -> convert_dict ser m S snake d = Some kv.
+  Proof.
+    induction d as [|[k w] r IH]; intro H.
+    - exists []. reflexivity.
+    - destruct IH as [kv Hkv]; [intros k' w' Hin; apply (H k' w'); right; exact Hin|].
+      destruct (H k w (or_introl eq_refl)) as [E|[j Hj]].
+      + subst w. exists kv. intros m Hm. simpl. apply Hkv; exact Hm.
+      + exists ((k, j) :: kv). intros m Hm. simpl.
+        assert (Hw : w <> PUnset).
+        { intro E; subst w. specialize (Hj (Datatypes.S n) (le_S _ _ (le_n n))). discriminate. }
+        rewrite (Hj m Hm), (Hkv m Hm). destruct w; try reflexivity. exfalso; apply Hw; reflexivity.
+  Qed.
+
+  Lemma convert_dict_lookup n d kv k w :
+    convert_dict ser n S snake d = Some kv -> NoDup (map fst d) -> In (k, w) d ->
+    jlookup k kv = match w with PUnset => None | _ => convert_value ser n S snake w end.
+  Proof.
+    revert kv; induction d as [|[k0 v] r IH]; simpl; intros kv H Hn Hin; [contradiction|].
+    apply NoDup_cons_iff in Hn as [Hnotin Hnd].
+    assert (Hgen : forall kv', (match convert_value ser n S snake v, convert_dict ser n S snake r with
+                                | Some j, Some o => Some ((k0, j) :: o) | _, _ => None end) = Some kv' ->
+                     (k0, v) = (k, w) \/ In (k, w) r ->
+                     jlookup k kv' = match (if String.eqb k k0 then convert_value ser n S snake v
+                                             else jlookup k kv') with x => x end).
+    { intros kv' H' _. destruct (convert_value ser n S snake v) as [j|] eqn:Ej; [|discriminate].
+      destruct (convert_dict ser n S snake r) as [o|]; [|discriminate].
+      inversion H'; subst; simpl. destruct (String.eqb k k0); reflexivity. }
+    destruct Hin as [E|Hin].
+    - inversion E; subst k0 v. clear Hgen.
+      destruct w;
+        try (match type of H with
+             | context [convert_value ser n S snake ?a] =>
+                 destruct (convert_value ser n S snake a) as [jj|] eqn:Ej; [|discriminate]
+             end;
+             destruct (convert_dict ser n S snake r) as [o|]; [|discriminate];
+             inversion H; subst; simpl; rewrite String.eqb_refl; reflexivity).
+      rewrite jlookup_assoc. apply assoc_None. intro Hk. apply Hnotin.
+      eapply convert_dict_keys; eauto.
+    - assert (Hk0 : String.eqb k k0 = false).
+      { apply String.eqb_neq. intro; subst. apply Hnotin. apply (in_map fst) in Hin. exact Hin. }
+      assert (Hstep : forall kv', (match convert_value ser n S snake v, convert_dict ser n S snake r with
+                                   | Some j, Some o => Some ((k0, j) :: o) | _, _ => None end) = Some kv' ->
+                        jlookup k kv' = match w with PUnset => None | _ => convert_value ser n S snake w end).
+      { intros kv' H'. destruct (convert_value ser n S snake v) as [j|]; [|discriminate].
+        destruct (convert_dict ser n S snake r) as [o|] eqn:Eo; [|discriminate].
+        inversion H'; subst; simpl. rewrite Hk0. apply IH; auto. }
+      destruct v; try (apply Hstep; exact H). apply IH; auto.
+  Qed.
+End DictLookup.
+
+(* ---------- the whole call ---------- *)
+Section Call.
+  Variable ser : string -> pyval -> pyval.
+  Hypothesis Hser : ser_wf ser.
+  Variable S : schema.
+  Variable snake : bool.
+  Hypothesis Hinputs : inputs_ok S snake = true.
+  Variable vs : list vardef.
+  Variable kwargs : list (string * pyval).
+  Variable n : nat.
+  Variable g : generated.
+  Hypothesis Hgen : generate S snake vs = Some g.
+  Hypothesis Hnames : names_ok S snake vs = true.
+  Hypothesis Hvn : NoDup (map v_name vs).
+  Hypothesis Hcall : typed_call n S snake vs kwargs = true.
+
+  Definition py (v : vardef) : string := pname snake (v_name v).
+  Definition argof (k : string) : pyval := match assoc k kwargs with Some a => a | None => PUnset end.
+  Definition W (v : vardef) : pyval :=
+    match wrap_arg ser S (v_type v) (argof (py v)) with Some w => w | None => PNone end.
+
+  (* --- names_ok unpacked --- *)
+  Lemma names_facts :
+    (forall k, In k (map py vs) -> py_ok_name k = true) /\ NoDup (map py vs) /\
+    ~ In "gql" (map py vs) /\ ~ (In "query" (map py vs) /\ In "_query" (map py vs)) /\
+    ~ In "UNSET" (map py vs) /\
+    (forall v f, In v vs -> var_ser S (v_type v) = Some f ->
+       ~ In f (map py vs) /\ f <> "query" /\ f <> "_query" /\ is_item_name f = false /\ f <> "UNSET").
+  Proof.
+    pose proof Hnames as Hn. unfold names_ok in Hn. fold py in Hn.
+    apply andb_true_iff in Hn as [Hn H6]. apply andb_true_iff in Hn as [Hn H5].
+    apply andb_true_iff in Hn as [Hn H4]. apply andb_true_iff in Hn as [Hn H3].
+    apply andb_true_iff in Hn as [H1 H2].
+    assert (Hser6 : forall v f, In v vs -> var_ser S (v_type v) = Some f ->
+              negb (mem_str f (map py vs)) && negb (String.eqb f "query") && negb (String.eqb f "_query")
+              && negb (is_item_name f) && negb (String.eqb f "UNSET") = true).
+    { intros v f Hv Hf. rewrite forallb_forall in H6. specialize (H6 v Hv). rewrite Hf in H6. exact H6. }
+    split; [|split; [|split; [|split; [|split]]]].
+    - intros k Hk. rewrite forallb_forall in H1. apply H1; exact Hk.
+    - apply nodup_str_NoDup; exact H2.
+    - apply mem_str_false. apply negb_true_iff; exact H3.
+    - intros [A B]. apply mem_str_In in A. apply mem_str_In in B. rewrite A, B in H4. discriminate.
+    - apply mem_str_false. apply negb_true_iff; exact H5.
+    - intros v f Hv Hf. specialize (Hser6 v f Hv Hf).
+      apply andb_true_iff in Hser6 as [Hs E5]. apply andb_true_iff in Hs as [Hs E4].
+      apply andb_true_iff in Hs as [Hs E3]. apply andb_true_iff in Hs as [E1 E2].
+      repeat split.
+      + apply mem_str_false. apply negb_true_iff; exact E1.
+      + apply String.eqb_neq. apply negb_true_iff; exact E2.
+      + apply String.eqb_neq. apply negb_true_iff; exact E3.
+      + apply negb_true_iff; exact E4.
+      + apply String.eqb_neq. apply negb_true_iff; exact E5.
+  Qed.
+
+  (* --- the generator's output --- *)
+  Lemma gen_struct : exists l, map_opt (gen_one S snake) vs = Some l /\ g_dict g = map snd l.
+  Proof.
+    unfold generate in Hgen. destruct (map_opt (gen_one S snake) vs) as [l|] eqn:E; [|discriminate].
+    inversion Hgen; subst. exists l. split; reflexivity.
+  Qed.
+
+  Lemma shape : exists ps, map p_name ps = map py vs /\
+                           map p_required ps = map (fun v => is_nonnull (v_type v)) vs /\
+                           Permutation (g_params g) ps.
+  Proof. destruct (signature_shape _ _ _ _ Hgen) as [ps [H1 [H2 [_ H4]]]]. exists ps. repeat split; assumption. Qed.
+
+  Lemma params_names k : In k (map p_name (g_params g)) <-> In k (map py vs).
+  Proof.
+    destruct shape as [ps [Hn [_ Hp]]]. rewrite <- Hn. split; apply Permutation_in; apply Permutation_map;
+      [exact Hp | apply Permutation_sym; exact Hp].
+  Qed.
+
+  Lemma sig_ok_holds : sig_ok g = true.
+  Proof.
+    destruct names_facts as [N1 [N2 _]]. unfold sig_ok. apply andb_true_iff. split.
+    - apply forallb_forall. intros p Hp. apply N1. apply params_names. apply in_map. exact Hp.
+    - apply nodup_str_NoDup. destruct shape as [ps [Hn [_ Hp]]].
+      eapply Permutation_NoDup; [apply Permutation_map; apply Permutation_sym; exact Hp|]. rewrite Hn. exact N2.
+  Qed.
+
+  Lemma two_maps {X Y A B} (f1 : X -> A) (g1 : Y -> A) (f2 : X -> B) (g2 : Y -> B) xs ys :
+    map f1 xs = map g1 ys -> map f2 xs = map g2 ys ->
+    forall x, In x xs -> exists y, In y ys /\ f1 x = g1 y /\ f2 x = g2 y.
+  Proof.
+    revert ys; induction xs as [|a xs IH]; intros [|b ys] H1 H2 x Hx; try contradiction; try discriminate.
+    simpl in *. inversion H1. inversion H2. destruct Hx as [E|Hx].
+    - subst. exists b. repeat split; auto.
+    - destruct (IH ys H3 H5 x Hx) as [y [Hy Hr]]. exists y. split; [right; exact Hy|exact Hr].
+  Qed.
+
+  (* --- typed_call unpacked --- *)
+  Lemma call_facts v : In v vs ->
+    match assoc (py v) kwargs with
+    | Some a => typed n S snake (v_type v) a = true
+    | None => is_nonnull (v_type v) = false
+    end.
+  Proof.
+    intro Hv. pose proof Hcall as Hc. unfold typed_call in Hc. apply andb_true_iff in Hc as [_ Hc].
+    rewrite forallb_forall in Hc. specialize (Hc v Hv). fold (py v) in Hc.
+    destruct (assoc (py v) kwargs); [exact Hc|]. apply negb_true_iff; exact Hc.
+  Qed.
+
+  Lemma bind_ok ps :
+    (forall p, In p ps -> p_required p = true -> assoc (p_name p) kwargs <> None) ->
+    bind ps kwargs = Some (map (fun p => (p_name p, argof (p_name p))) ps).
+  Proof.
+    induction ps as [|a ps IH]; simpl; intro H; [reflexivity|].
+    rewrite IH; [|intros p Hp; apply H; right; exact Hp].
+    assert (Ea : argof (p_name a) = match assoc (p_name a) kwargs with Some x => x | None => PUnset end)
+      by reflexivity.
+    destruct (assoc (p_name a) kwargs) eqn:E; simpl; [rewrite Ea; reflexivity|].
+    destruct (p_required a) eqn:R; [|simpl; rewrite Ea; reflexivity].
+    exfalso. apply (H a (or_introl eq_refl) R E).
+  Qed.
+
+  Definition env0 : list (string * pyval) := map (fun p => (p_name p, argof (p_name p))) (g_params g).
+
+  Lemma bind_holds : bind (g_params g) kwargs = Some env0.
+  Proof.
+    apply bind_ok. intros p Hp Hr Ha.
+    destruct shape as [ps [Hn [Hq Hperm]]].
+    assert (Hps : In p ps) by (eapply Permutation_in; eauto).
+    destruct (two_maps _ _ _ _ _ _ Hn Hq p Hps) as [v [Hv [E1 E2]]].
+    pose proof (call_facts v Hv) as Hc. rewrite <- E1, Ha in Hc. rewrite Hc in E2. congruence.
+  Qed.
+
+  Lemma assoc_keymap (A : string -> pyval) ps k :
+    assoc k (map (fun p => (p_name p, A (p_name p))) ps) =
+    if mem_str k (map p_name ps) then Some (A k) else None.
+  Proof.
+    induction ps as [|a ps IH]; simpl; [reflexivity|].
+    destruct (String.eqb k (p_name a)) eqn:E; simpl; [apply String.eqb_eq in E; subst; reflexivity|exact IH].
+  Qed.
+
+  Lemma env0_in k : In k (map py vs) -> assoc k env0 = Some (argof k).
+  Proof.
+    intro H. unfold env0. rewrite assoc_keymap.
+    assert (mem_str k (map p_name (g_params g)) = true) by (apply mem_str_In; apply params_names; exact H).
+    rewrite H0. reflexivity.
+  Qed.
+
+  Lemma env0_out k : ~ In k (map py vs) -> assoc k env0 = None.
+  Proof.
+    intro H. unfold env0. rewrite assoc_keymap.
+    assert (mem_str k (map p_name (g_params g)) = false).
+    { apply mem_str_false. intro Hk. apply H. apply params_names. exact Hk. }
+    rewrite H0. reflexivity.
+  Qed.
+
+  Definition qv : string := hd "query" (variable_names g).
+  Definition env1 : list (string * pyval) := (qv, query_text) :: env0.
+
+  Lemma qv_cases : (qv = "query" /\ ~ In "query" (map py vs)) \/ (qv = "_query" /\ In "query" (map py vs)).
+  Proof.
+    unfold qv, variable_names. simpl. unfold local_name. simpl.
+    destruct (mem_str "query" (map p_name (g_params g))) eqn:E.
+    - right. split; [reflexivity|]. apply params_names. apply mem_str_In. exact E.
+    - left. split; [reflexivity|]. intro H. apply params_names in H. apply mem_str_In in H. congruence.
+  Qed.
+
+  Lemma env1_other k : k <> qv -> assoc k env1 = assoc k env0.
+  Proof. intro H. unfold env1. simpl. destruct (String.eqb k qv) eqn:E; [apply String.eqb_eq in E; contradiction|reflexivity]. Qed.
+
+  Lemma env1_py k : In k (map py vs) -> assoc k env1 = Some (argof k).
+  Proof.
+    intro Hk. destruct names_facts as [_ [_ [_ [N4 _]]]].
+    rewrite env1_other; [apply env0_in; exact Hk|].
+    destruct qv_cases as [[E Hq]|[E Hq]]; rewrite E; intro; subst k; [contradiction|apply N4; split; assumption].
+  Qed.
+
+  Lemma env1_free k : ~ In k (map py vs) -> k <> "query" -> k <> "_query" -> assoc k env1 = None.
+  Proof.
+    intros Hk H1 H2. rewrite env1_other; [apply env0_out; exact Hk|].
+    destruct qv_cases as [[E _]|[E _]]; rewrite E; assumption.
+  Qed.
+
+  (* --- the serialize function chosen by the generator is the one of the variable's named type --- *)
+  Lemma ser_name_var_ser : forall t nl a u, parse_type_node S t nl = Some (a, u) -> ser_name S u = var_ser S t.
+  Proof.
+    induction t as [nm|t' IH|t' IH]; intros nl a u H.
+    - simpl in H. unfold parse_named in H. unfold var_ser. simpl.
+      destruct (lookup_type S nm) as [[b|[c|]|vals|fs]|] eqn:El; inversion H; subst; try reflexivity.
+      unfold ser_name. unfold lookup_type in El. destruct (builtin_of nm); [discriminate|]. rewrite El. reflexivity.
+    - simpl in H. destruct (parse_type_node S t' true) as [[a' u']|] eqn:E; [|discriminate].
+      inversion H; subst. unfold var_ser. simpl. apply (IH true a' u E).
+    - simpl in H. unfold var_ser. simpl. apply (IH false a u H).
+  Qed.
+
+  Lemma item_prefix d : String.prefix "_item" (item_name d) = true.
+  Proof. unfold item_name. simpl. destruct (z_to_string (Z.of_nat d)); reflexivity. Qed.
+
+  (* --- every variable: the wrapped value and what becomes of it --- *)
+  Lemma W_passed v a : In v vs -> assoc (py v) kwargs = Some a ->
+    exists j c, wrap_arg ser S (v_type v) (argof (py v)) = Some (W v) /\
+                (forall m, n <= m -> convert_value ser m S snake (W v) = Some j) /\
+                coerce n S (v_type v) j = Some c /\ intend ser n S snake (v_type v) a = Some c /\
+                (a = PNone -> W v = PNone).
+  Proof.
+    intros Hv Ha. pose proof (call_facts v Hv) as Hc. rewrite Ha in Hc.
+    destruct (arg_delivery ser Hser S snake Hinputs n (v_type v) a Hc) as [w [j [c [H0 [H1 [H2 [H3 _]]]]]]].
+    unfold W, argof. rewrite Ha, H0. exists j, c. repeat split; try assumption.
+    intro E; subst a. unfold wrap_arg in H0. destruct (var_ser S (v_type v)) as [f|]; [|congruence].
+    destruct (v_type v) as [nm|t'|t']; simpl in H0; try (inversion H0; reflexivity).
+    destruct n; [discriminate|]. simpl in Hc. discriminate.
+  Qed.
+
+  Lemma W_omitted v : In v vs -> assoc (py v) kwargs = None ->
+    wrap_arg ser S (v_type v) (argof (py v)) = Some (W v) /\ W v = PUnset.
+  Proof.
+    intros Hv Ha. pose proof (call_facts v Hv) as Hc. rewrite Ha in Hc.
+    assert (H : wrap_arg ser S (v_type v) PUnset = Some PUnset).
+    { unfold wrap_arg. destruct (var_ser S (v_type v)); [|reflexivity]. rewrite ser_arg_unset; [reflexivity|exact Hc]. }
+    unfold W, argof. rewrite Ha, H. split; reflexivity.
+  Qed.
+
+  Lemma W_wrap v : In v vs -> wrap_arg ser S (v_type v) (argof (py v)) = Some (W v).
+  Proof.
+    intro Hv. destruct (assoc (py v) kwargs) as [a|] eqn:Ha.
+    - destruct (W_passed v a Hv Ha) as [j [c [H _]]]. exact H.
+    - apply (W_omitted v Hv Ha).
+  Qed.
+
+  Lemma eval_entry v p e : In v vs -> gen_one S snake v = Some (p, e) ->
+    exists lg, eval_se ser env1 (snd e) = Some (W v, lg).
+  Proof.
+    intros Hv Hg. destruct (gen_one_dictval _ _ _ _ _ Hg) as [a [u [Hp He]]]. rewrite He.
+    fold (py v). unfold dict_value. rewrite (ser_name_var_ser _ _ _ _ Hp).
+    pose proof (W_wrap v Hv) as Hw. unfold wrap_arg in Hw.
+    assert (Hpy : In (py v) (map py vs)) by (apply in_map; exact Hv).
+    destruct (var_ser S (v_type v)) as [f|] eqn:Ef.
+    - destruct names_facts as [_ [_ [_ [_ [N5 N6]]]]].
+      destruct (N6 v f Hv Ef) as [F1 [F2 [F3 [F4 F5]]]].
+      rewrite (eval_gen ser f) with (v := argof (py v)).
+      + simpl Nat.eqb. destruct (ser_arg ser f (v_type v) true true (argof (py v))) as [[w lg]|]; [|discriminate].
+        simpl in Hw. inversion Hw; subst. exists lg. reflexivity.
+      + intro d. destruct (String.eqb f (item_name d)) eqn:E; [|reflexivity].
+        apply String.eqb_eq in E. subst f. unfold is_item_name in F4. rewrite item_prefix in F4. discriminate.
+      + apply env1_py; exact Hpy.
+      + apply env1_free; assumption.
+      + apply env1_free; [exact N5|discriminate|discriminate].
+    - inversion Hw. exists []. change (eval_se ser env1 (EVar (py v))) with
+        (option_map (fun x => (x, @nil (string * pyval))) (assoc (py v) env1)).
+      rewrite (env1_py _ Hpy). reflexivity.
+  Qed.
+
+  Lemma eval_dict_map env vs' : forall l',
+    map_opt (gen_one S snake) vs' = Some l' ->
+    (forall v p e, In v vs' -> gen_one S snake v = Some (p, e) -> exists lg, eval_se ser env (snd e) = Some (W v, lg)) ->
+    eval_dict ser env (map snd l') = Some (map (fun v => (v_name v, W v)) vs').
+  Proof.
+    induction vs' as [|a vs' IH]; simpl; intros l' H Hall.
+    - inversion H; reflexivity.
+    - destruct (gen_one S snake a) as [[p e]|] eqn:E; [|discriminate].
+      destruct (map_opt (gen_one S snake) vs') as [l|] eqn:E2; [|discriminate].
+      inversion H; subst; simpl. destruct e as [k dv].
+      destruct (Hall a p (k, dv) (or_introl eq_refl) E) as [lg Hlg]. simpl in Hlg. rewrite Hlg.
+      rewrite (IH l eq_refl); [|intros v p' e' Hv; apply Hall; right; exact Hv].
+      destruct (gen_one_name _ _ _ _ _ E) as [_ Hk]. simpl in Hk. subst k. reflexivity.
+  Qed.
+
+  Definition dct : list (string * pyval) := map (fun v => (v_name v, W v)) vs.
+
+  Lemma dct_keys : map fst dct = map v_name vs.
+  Proof. unfold dct. rewrite map_map. reflexivity. Qed.
+
+  (* the call sends a payload; for every variable, what is found under its GraphQL name *)
+  Lemma call_shape : exists sent,
+    (forall m, n <= m -> call_method ser m S snake vs kwargs = Sent sent) /\
+    (forall v, In v vs -> jlookup (v_name v) sent =
+                          match W v with PUnset => None | _ => convert_value ser n S snake (W v) end).
+  Proof.
+    destruct gen_struct as [l [Hl Hd]].
+    assert (Hev : eval_dict ser env1 (g_dict g) = Some dct).
+    { rewrite Hd. apply eval_dict_map; [exact Hl|]. intros v p e Hv Hg. apply (eval_entry v p e Hv Hg). }
+    destruct (convert_dict_exists ser S snake n dct) as [kv Hkv].
+    { intros k w Hin. unfold dct in Hin. apply in_map_iff in Hin as [v [E Hv]]. inversion E; subst.
+      destruct (assoc (py v) kwargs) as [a|] eqn:Ha.
+      - right. destruct (W_passed v a Hv Ha) as [j [c [_ [H _]]]]. exists j. exact H.
+      - left. apply (W_omitted v Hv Ha). }
+    exists kv. split.
+    - intros m Hm. unfold call_method. rewrite Hgen, sig_ok_holds. cbn [negb]. rewrite bind_holds.
+      destruct names_facts as [_ [_ [N3 _]]]. rewrite (env0_out "gql" N3).
+      change (hd "query" (variable_names g)) with qv. change ((qv, query_text) :: env0) with env1.
+      rewrite Hev, (Hkv m Hm). reflexivity.
+    - intros v Hv. apply (convert_dict_lookup ser S snake n dct kv (v_name v) (W v)).
+      + apply Hkv. apply le_n.
+      + rewrite dct_keys. exact Hvn.
+      + unfold dct. apply in_map_iff. exists v. split; [reflexivity|exact Hv].
+  Qed.
+
+  (* END TO END: the payload coerces, under the operation's variable definitions, to exactly the caller's values *)
+  Theorem call_delivery : exists sent cs,
+    (forall m, n <= m -> call_method ser m S snake vs kwargs = Sent sent) /\
+    coerce_vars n S vs sent = Some cs /\ intended_vars ser n S snake vs kwargs = Some cs.
+  Proof.
+    destruct call_shape as [sent [Hsent Hlook]]. exists sent.
+    assert (H : forall vs', incl vs' vs -> exists cs, coerce_vars n S vs' sent = Some cs /\
+                                              intended_vars ser n S snake vs' kwargs = Some cs).
+    { induction vs' as [|v r IH]; intro Hincl.
+      - exists []. split; reflexivity.
+      - destruct IH as [cs [Hc Hi]]; [intros x Hx; apply Hincl; right; exact Hx|].
+        assert (Hv : In v vs) by (apply Hincl; left; reflexivity).
+        simpl. rewrite (Hlook v Hv). fold (py v).
+        destruct (assoc (py v) kwargs) as [a|] eqn:Ha.
+        + destruct (W_passed v a Hv Ha) as [j [c [_ [Hcv [Hco [Hin _]]]]]].
+          pose proof (Hcv n (le_n n)) as Hn.
+          assert (Hw : W v <> PUnset).
+          { intro E. rewrite E in Hn. destruct n; discriminate. }
+          assert (Hl : match W v with PUnset => None | _ => convert_value ser n S snake (W v) end = Some j).
+          { destruct (W v); try exact Hn. exfalso; apply Hw; reflexivity. }
+          rewrite Hl, Hco, Hc, Hin, Hi. exists ((v_name v, c) :: cs). split; reflexivity.
+        + destruct (W_omitted v Hv Ha) as [_ Hw]. rewrite Hw.
+          pose proof (call_facts v Hv) as Hcf. rewrite Ha in Hcf.
+          destruct (v_default v) as [d|].
+          * rewrite Hc, Hi. exists ((v_name v, d) :: cs). split; reflexivity.
+          * rewrite Hcf. exists cs. split; assumption. }
+    destruct (H vs (incl_refl _)) as [cs [Hc Hi]]. exists cs. repeat split; assumption.
+  Qed.
+
+  (* an omitted optional argument leaves no key in the payload of the call *)
+  Theorem call_omitted_absent v : In v vs -> assoc (py v) kwargs = None ->
+    exists sent, (forall m, n <= m -> call_method ser m S snake vs kwargs = Sent sent) /\
+                 jlookup (v_name v) sent = None.
+  Proof.
+    intros Hv Ha. destruct call_shape as [sent [Hsent Hlook]]. exists sent. split; [exact Hsent|].
+    rewrite (Hlook v Hv). destruct (W_omitted v Hv Ha) as [_ Hw]. rewrite Hw. reflexivity.
+  Qed.
+
+  (* an explicit None travels as null *)
+  Theorem call_none_is_null v : In v vs -> assoc (py v) kwargs = Some PNone ->
+    exists sent, (forall m, n <= m -> call_method ser m S snake vs kwargs = Sent sent) /\
+                 jlookup (v_name v) sent = Some JNull.
+  Proof.
+    intros Hv Ha. destruct call_shape as [sent [Hsent Hlook]]. exists sent. split; [exact Hsent|].
+    rewrite (Hlook v Hv). destruct (W_passed v PNone Hv Ha) as [j [c [_ [_ [_ [_ Hw]]]]]]. rewrite (Hw eq_refl).
+    pose proof (call_facts v Hv) as Hc. rewrite Ha in Hc. destruct n; [discriminate|]. reflexivity.
+  Qed.
+End Call.
